@@ -274,6 +274,9 @@ func drawSeq(f *ssa.Function, rd ssa.Value) ([]drawStep, bool) {
 			for i, a := range cc.Args {
 				if vals[a] {
 					d := lastSeg(calleeName(cc))
+					if calleeName(cc) == "crypto/rand.Int" && i == 0 && len(cc.Args) == 2 {
+						d += "[<" + bigBound(f, in, cc.Args[1]) + "]"
+					}
 					if d == "io.ReadFull" && i == 0 && len(cc.Args) == 2 {
 						if n, ok := bufLen(f, cc.Args[1]); ok {
 							d += fmt.Sprintf("[%d]", n)
@@ -1153,11 +1156,70 @@ func (c *Ctx) checkC01Draws() {
 	if f := c.fn("C01.4", "pkg/transports/wrapping/obfs4", "", "generateObfs4Keys"); f != nil && len(f.Params) == 1 {
 		expect(f, f.Params[0], []string{"Read[32] -> .PrivateKey", "Read[20] -> .NodeID"}, "private key, node id")
 	}
+	// the seeded port: min + (one draw below max-min), the published formula (the upper bound is exclusive)
+	if f := c.fn("C01.4", "pkg/transports", "", "PortSelectorRange"); f != nil && len(f.Params) == 3 {
+		if rd := hk(f); rd != nil {
+			expect(f, rd, []string{"rand.Int[<NewInt((" + P(f, 1) + " - " + P(f, 0) + "))]"}, "one draw below max-min")
+			var draw ssa.Value
+			for _, ci := range callsIn(f, nameIs("crypto/rand.Int")) {
+				for _, ex := range extractOf(ci.(*ssa.Call), 0) {
+					draw = ex
+				}
+			}
+			okRet, nRet := draw != nil, 0
+			var muts []string
+			if draw != nil {
+				eachInstr(f, func(in ssa.Instruction) {
+					switch x := in.(type) {
+					case *ssa.Return:
+						if e, isC := x.Results[1].(*ssa.Const); !isC || e.Value != nil {
+							return
+						}
+						if _, isConst := x.Results[0].(*ssa.Const); isConst {
+							return // the error path of the draw returns (0, nil)
+						}
+						nRet++
+						cv, ok := x.Results[0].(*ssa.Convert)
+						if !ok {
+							okRet = false
+							return
+						}
+						call, ok := cv.X.(*ssa.Call)
+						if !ok || calleeName(&call.Call) != "(*math/big.Int).Uint64" || call.Call.Args[0] != draw {
+							okRet = false
+						}
+					case *ssa.Call:
+						n := calleeName(&x.Call)
+						if len(x.Call.Args) > 0 && x.Call.Args[0] == draw && strings.HasPrefix(n, "(*math/big.Int).") {
+							switch n {
+							case "(*math/big.Int).Uint64", "(*math/big.Int).Int64", "(*math/big.Int).Cmp", "(*math/big.Int).String", "(*math/big.Int).Sign", "(*math/big.Int).IsUint64", "(*math/big.Int).IsInt64", "(*math/big.Int).BitLen":
+							default:
+								var as []string
+								for _, a := range x.Call.Args[1:] {
+									if a == draw {
+										as = append(as, "draw")
+									} else {
+										as = append(as, pathOf(a))
+									}
+								}
+								muts = append(muts, strings.TrimPrefix(n, "(*math/big.Int).")+"("+strings.Join(as, ", ")+")")
+							}
+						}
+					}
+				})
+			}
+			want := "[Add(draw, big.NewInt(" + P(f, 0) + "))]"
+			r.Check(okRet && nRet == 1 && fmt.Sprint(muts) == want, "C01.4", "PortSelectorRange: port = uint16(min + draw)", f.Pos(), fnName(f), "draw updated by "+fmt.Sprint(muts)+", returned as uint16(draw.Uint64())",
+				"the seeded port is not min + (draw below max-min): the station expects the client on a different port than every released client computes from the same seed")
+		} else {
+			r.Unk("C01.4", "PortSelectorRange: hkdf stream", f.Pos(), fnName(f), "hkdf.New not found")
+		}
+	}
 	if f := c.fn("C01.4", "pkg/dtls", "", "newCertificate"); f != nil && len(f.Params) == 1 {
 		expect(f, f.Params[0], []string{"dtls.getPrivkey", "dtls.getX509Tpl"}, "key pair, then template")
 	}
 	if f := c.fn("C01.4", "pkg/dtls", "", "getX509Tpl"); f != nil && len(f.Params) == 1 {
-		expect(f, f.Params[0], []string{"rand.Int", "io.ReadFull[8]"}, "serial, common name")
+		expect(f, f.Params[0], []string{"rand.Int[<1361129467683753853853498429727072845823]", "io.ReadFull[8]"}, "serial below 2^130-1, common name")
 	}
 	if f := c.fn("C01.4", "pkg/dtls", "", "certsFromSeed"); f != nil {
 		if rd := hk(f); rd != nil {
